@@ -1,19 +1,423 @@
+// c03: "execution is deterministic".
+//
+//	c03 ranges -repo DIR             every `for ... := range <map>` of the anchored files, classified (go/ast)
+//	c03 ops -seed N -n N             operation histories on the real Dict / struct / module / hash(): observations for the Coq model
+//	c03 run -seed N -n N -k K -g G   generated programs: K fresh processes (new hash seed each), repeated in one
+//	                                 process, and on G concurrent goroutines; canonical transcripts compared
+//	c03 child ...                    (internal)
 package main
 
 import (
+	"bufio"
+	"bytes"
+	"crypto/sha256"
+	"encoding/hex"
+	"encoding/json"
+	"flag"
 	"fmt"
 	"os"
+	"os/exec"
+	"sort"
+	"strings"
+	"sync"
+	"time"
+
+	sjson "go.starlark.net/lib/json"
+	smath "go.starlark.net/lib/math"
+	stime "go.starlark.net/lib/time"
+	"go.starlark.net/starlark"
+	"go.starlark.net/starlarkstruct"
+	"go.starlark.net/syntax"
+
+	"verifharness/internal/hx"
 )
 
 func main() {
 	if len(os.Args) < 2 {
-		fmt.Fprintln(os.Stderr, "usage: c03 ranges|run|child|ops ...")
+		fmt.Fprintln(os.Stderr, "usage: c03 ranges|ops|run|child ...")
 		os.Exit(2)
 	}
 	switch os.Args[1] {
 	case "ranges":
 		rangesMain(os.Args[2:])
+	case "ops":
+		opsMain(os.Args[2:])
+	case "run":
+		runMain(os.Args[2:])
+	case "child":
+		childMain(os.Args[2:])
 	default:
 		os.Exit(2)
 	}
+}
+
+// ------------------------------------------------------------- one execution
+
+var fixedNow = time.Date(2024, 2, 29, 12, 34, 56, 789, time.UTC)
+
+func fileOptions(bits int) *syntax.FileOptions {
+	return &syntax.FileOptions{
+		Set: bits&1 != 0, While: bits&2 != 0, TopLevelControl: bits&4 != 0,
+		GlobalReassign: bits&8 != 0, LoadBindsGlobally: bits&16 != 0, Recursion: bits&32 != 0,
+	}
+}
+
+// serialise writes a value with every iteration order spelled out.
+func serialise(b *strings.Builder, v starlark.Value, depth int) {
+	if depth > 6 {
+		b.WriteString("<deep>")
+		return
+	}
+	switch x := v.(type) {
+	case *starlark.List:
+		b.WriteString("L[")
+		for i := 0; i < x.Len(); i++ {
+			serialise(b, x.Index(i), depth+1)
+			b.WriteByte(',')
+		}
+		b.WriteByte(']')
+	case starlark.Tuple:
+		b.WriteString("T(")
+		for _, e := range x {
+			serialise(b, e, depth+1)
+			b.WriteByte(',')
+		}
+		b.WriteByte(')')
+	case *starlark.Dict:
+		b.WriteString("D{")
+		for _, it := range x.Items() {
+			serialise(b, it[0], depth+1)
+			b.WriteByte(':')
+			serialise(b, it[1], depth+1)
+			b.WriteByte(',')
+		}
+		b.WriteByte('}')
+	case *starlark.Set:
+		b.WriteString("S{")
+		it := x.Iterate()
+		var e starlark.Value
+		for it.Next(&e) {
+			serialise(b, e, depth+1)
+			b.WriteByte(',')
+		}
+		it.Done()
+		b.WriteByte('}')
+	case *starlarkstruct.Struct:
+		b.WriteString("struct<")
+		for _, n := range x.AttrNames() { // order as exposed, not re-sorted
+			a, _ := x.Attr(n)
+			b.WriteString(n)
+			b.WriteByte('=')
+			serialise(b, a, depth+1)
+			b.WriteByte(',')
+		}
+		b.WriteByte('>')
+	case *starlarkstruct.Module:
+		b.WriteString("module<" + strings.Join(x.AttrNames(), ",") + ">")
+	case *starlark.Function:
+		b.WriteString("fn:" + x.Name())
+	case *starlark.Builtin:
+		b.WriteString("builtin:" + x.Name())
+		if r := x.Receiver(); r != nil {
+			b.WriteString("@" + r.Type())
+		}
+	default:
+		b.WriteString(v.Type() + ":" + v.String())
+	}
+}
+
+func transcript(p program) string {
+	var out strings.Builder
+	modCache := map[string]starlark.StringDict{}
+	thread := &starlark.Thread{Name: "c03"}
+	thread.Print = func(_ *starlark.Thread, msg string) { out.WriteString("print: " + msg + "\n") }
+	pre := starlark.StringDict{"struct": starlark.NewBuiltin("struct", starlarkstruct.Make), "json": sjson.Module, "math": smath.Module, "time": stime.Module}
+	thread.Load = func(t *starlark.Thread, module string) (starlark.StringDict, error) {
+		if g, ok := modCache[module]; ok {
+			return g, nil
+		}
+		var idx int
+		fmt.Sscanf(module, "mod_%d.star", &idx)
+		t2 := &starlark.Thread{Name: "load"}
+		g, err := starlark.ExecFileOptions(fileOptions(1), t2, module, modSources[idx%len(modSources)], pre)
+		modCache[module] = g
+		return g, err
+	}
+	stime.SetNow(thread, func() (time.Time, error) { return fixedNow, nil })
+	thread.SetMaxExecutionSteps(2000000)
+	globals, err := starlark.ExecFileOptions(fileOptions(p.Opts), thread, "prog.star", p.Src, pre)
+	if err != nil {
+		out.WriteString("error: " + err.Error() + "\n")
+		if ee, ok := err.(*starlark.EvalError); ok {
+			out.WriteString("backtrace: " + strings.ReplaceAll(ee.Backtrace(), "\n", " | ") + "\n")
+		}
+	}
+	fmt.Fprintf(&out, "steps: %d\n", thread.ExecutionSteps())
+	for _, name := range globals.Keys() {
+		v := globals[name]
+		var b strings.Builder
+		serialise(&b, v, 0)
+		out.WriteString("global " + name + " = " + b.String() + "\n")
+		out.WriteString("string " + name + " = " + v.String() + "\n")
+		if ha, ok := v.(starlark.HasAttrs); ok {
+			out.WriteString("attrs " + name + ": " + strings.Join(ha.AttrNames(), ",") + "\n") // raw order, as exposed to the host
+		}
+	}
+	out.WriteString("globals-string: " + globals.String() + "\n")
+	return out.String()
+}
+
+func digest(s string) string {
+	h := sha256.Sum256([]byte(s))
+	return hex.EncodeToString(h[:8])
+}
+
+// ---------------------------------------------------------------------- child
+
+func childMain(args []string) {
+	fs := flag.NewFlagSet("child", flag.ExitOnError)
+	seed := fs.Uint64("seed", 1, "")
+	lo := fs.Int64("lo", 0, "")
+	hi := fs.Int64("hi", 0, "")
+	full := fs.Bool("full", false, "print the transcripts themselves")
+	multi := fs.Bool("multi", false, "also repeat in this process and on goroutines")
+	g := fs.Int("g", 4, "")
+	fs.Parse(args)
+	w := bufio.NewWriterSize(os.Stdout, 1<<20)
+	defer w.Flush()
+	enc := json.NewEncoder(w)
+	for i := *lo; i < *hi; i++ {
+		p := genProgram(*seed, i)
+		t := transcript(p)
+		rec := map[string]any{"kind": "t", "i": i, "h": digest(t)}
+		if *full {
+			rec["t"] = t
+		}
+		enc.Encode(rec)
+		if *multi {
+			for rep := 0; rep < 2; rep++ {
+				if t2 := transcript(p); t2 != t {
+					enc.Encode(map[string]any{"kind": "diverge", "where": "repeat", "i": i, "a": t, "b": t2})
+					break
+				}
+			}
+		}
+	}
+	if *multi {
+		// G goroutines execute different programs at the same time, several rounds;
+		// each result is compared with the sequential one
+		var mu sync.Mutex
+		n := *hi - *lo
+		var wg sync.WaitGroup
+		for k := 0; k < *g; k++ {
+			wg.Add(1)
+			go func(k int) {
+				defer wg.Done()
+				for j := int64(0); j < n; j++ {
+					i := *lo + (j*int64(*g)+int64(k)*7)%n
+					p := genProgram(*seed, i)
+					t := transcript(p)
+					ref := transcript(p)
+					if t != ref {
+						mu.Lock()
+						enc.Encode(map[string]any{"kind": "diverge", "where": "goroutines", "i": i, "a": ref, "b": t})
+						mu.Unlock()
+					}
+					mu.Lock()
+					enc.Encode(map[string]any{"kind": "g", "i": i, "h": digest(t)})
+					mu.Unlock()
+				}
+			}(k)
+		}
+		wg.Wait()
+	}
+}
+
+// --------------------------------------------------------------------- parent
+
+func firstDiff(a, b string) (string, string, string) {
+	la, lb := strings.Split(a, "\n"), strings.Split(b, "\n")
+	for i := 0; i < len(la) || i < len(lb); i++ {
+		x, y := "", ""
+		if i < len(la) {
+			x = la[i]
+		}
+		if i < len(lb) {
+			y = lb[i]
+		}
+		if x != y {
+			label := x
+			if label == "" {
+				label = y
+			}
+			f := strings.Fields(label)
+			key := ""
+			if len(f) > 0 {
+				key = strings.TrimSuffix(f[0], ":")
+				if len(f) > 1 && (key == "global" || key == "string" || key == "attrs") {
+					// the generator names globals <block><n>_<what>
+					name := strings.TrimSuffix(f[1], ":")
+					key += ":" + strings.TrimRight(strings.SplitN(name, "_", 2)[0], "0123456789")
+				}
+			}
+			return key, x, y
+		}
+	}
+	return "", "", ""
+}
+
+func runChild(args []string) ([]byte, error) {
+	cmd := exec.Command(os.Args[0], append([]string{"child"}, args...)...)
+	var so, se bytes.Buffer
+	cmd.Stdout, cmd.Stderr = &so, &se
+	err := cmd.Run()
+	if err != nil {
+		return so.Bytes(), fmt.Errorf("%v: %s", err, tailStr(se.String(), 2000))
+	}
+	return so.Bytes(), nil
+}
+
+func tailStr(s string, n int) string {
+	if len(s) > n {
+		return s[len(s)-n:]
+	}
+	return s
+}
+
+func runMain(args []string) {
+	fs := flag.NewFlagSet("run", flag.ExitOnError)
+	seed := fs.Uint64("seed", 1, "")
+	n := fs.Int64("n", 150, "")
+	lo := fs.Int64("lo", 0, "first program index")
+	k := fs.Int("k", 3, "fresh processes")
+	g := fs.Int("g", 4, "goroutines")
+	fs.Parse(args)
+	type res struct {
+		hashes map[int64]string
+		ghash  map[int64][]string
+		div    []map[string]any
+		err    error
+	}
+	results := make([]res, *k)
+	var wg sync.WaitGroup
+	for c := 0; c < *k; c++ {
+		wg.Add(1)
+		go func(c int) {
+			defer wg.Done()
+			a := []string{"-seed", fmt.Sprint(*seed), "-lo", fmt.Sprint(*lo), "-hi", fmt.Sprint(*lo + *n), "-g", fmt.Sprint(*g)}
+			if c == 0 {
+				a = append(a, "-multi")
+			}
+			out, err := runChild(a)
+			r := res{hashes: map[int64]string{}, ghash: map[int64][]string{}, err: err}
+			for _, line := range bytes.Split(out, []byte("\n")) {
+				if len(line) == 0 {
+					continue
+				}
+				var d map[string]any
+				if json.Unmarshal(line, &d) != nil {
+					continue
+				}
+				i := int64(d["i"].(float64))
+				switch d["kind"] {
+				case "t":
+					r.hashes[i] = d["h"].(string)
+				case "g":
+					r.ghash[i] = append(r.ghash[i], d["h"].(string))
+				case "diverge":
+					r.div = append(r.div, d)
+				}
+			}
+			results[c] = r
+		}(c)
+	}
+	wg.Wait()
+	for c, r := range results {
+		if r.err != nil {
+			// a crash of the interpreter is C02's subject; here it is a failed run
+			hx.Emit(map[string]any{"kind": "childerror", "child": c, "err": r.err.Error()})
+		}
+	}
+	ndiv := 0
+	report := func(where string, i int64, a, b string) {
+		p := genProgram(*seed, i)
+		key, x, y := firstDiff(a, b)
+		ndiv++
+		hx.Emit(map[string]any{"kind": "diverge", "where": where, "i": i, "key": key, "tags": p.Tags, "program": p.Src, "opts": p.Opts,
+			"line_a": trunc(x, 600), "line_b": trunc(y, 600), "seed": *seed})
+	}
+	for _, d := range results[0].div {
+		report(d["where"].(string), int64(d["i"].(float64)), d["a"].(string), d["b"].(string))
+	}
+	// goroutine runs against the sequential hash
+	for i, hs := range results[0].ghash {
+		for _, h := range hs {
+			if h != results[0].hashes[i] {
+				// re-run to obtain transcripts
+				p := genProgram(*seed, i)
+				report("goroutines", i, transcript(p), "(transcript digest "+h+" differed on a concurrent goroutine)")
+				break
+			}
+		}
+	}
+	// across processes
+	var idx []int64
+	for i := range results[0].hashes {
+		idx = append(idx, i)
+	}
+	sort.Slice(idx, func(a, b int) bool { return idx[a] < idx[b] })
+	reported := map[string]bool{}
+	for _, i := range idx {
+		for c := 1; c < *k; c++ {
+			if results[c].hashes[i] != results[0].hashes[i] {
+				// fetch two full transcripts from two fresh processes
+				var ts []string
+				for tries := 0; tries < 6 && len(ts) < 2; tries++ {
+					out, _ := runChild([]string{"-seed", fmt.Sprint(*seed), "-lo", fmt.Sprint(i), "-hi", fmt.Sprint(i + 1), "-full"})
+					var d map[string]any
+					if json.Unmarshal(bytes.TrimSpace(out), &d) == nil {
+						t := d["t"].(string)
+						if len(ts) == 0 || t != ts[0] {
+							ts = append(ts, t)
+						}
+					}
+				}
+				if len(ts) == 2 {
+					key, _, _ := firstDiff(ts[0], ts[1])
+					if !reported[key] || ndiv < 5 {
+						reported[key] = true
+						report("process", i, ts[0], ts[1])
+					}
+				} else {
+					ndiv++
+					hx.Emit(map[string]any{"kind": "diverge", "where": "process", "i": i, "key": "unreproduced", "program": genProgram(*seed, i).Src,
+						"line_a": "transcript digests differed between processes but 6 further processes agreed", "line_b": "", "seed": *seed})
+				}
+				break
+			}
+		}
+	}
+	tagc := map[string]int{}
+	errs := 0
+	for _, i := range idx {
+		p := genProgram(*seed, i)
+		for _, t := range p.Tags {
+			tagc[t]++
+		}
+		if len(p.Tags) > 0 && p.Tags[len(p.Tags)-1] == "error" {
+			errs++
+		}
+	}
+	sample := genProgram(*seed, *lo)
+	hx.Emit(map[string]any{"kind": "summary", "programs": len(idx), "processes": *k, "goroutines": *g, "divergences": ndiv,
+		"distribution": tagc, "with_error": errs, "sample_program": sample.Src, "sample_transcript": trunc(transcript(sample), 1500),
+		"executions": len(idx)*(*k+2) + len(idx)*(*g)*2})
+	hx.Flush()
+}
+
+func trunc(s string, n int) string {
+	if len(s) > n {
+		return s[:n] + "..."
+	}
+	return s
 }
